@@ -134,7 +134,7 @@ pub fn generate(rng: &mut Rng, property: &str, deep: bool) -> BScn {
     };
     let initial_key_for_extra = rng.below(n_keys as u64) as Key;
     let initial_key_tl = keys[initial_key_for_extra as usize];
-    let cfg = Cfg {
+    let mut cfg = Cfg {
         grid: knobs.grid,
         selector,
         keys,
@@ -150,6 +150,7 @@ pub fn generate(rng: &mut Rng, property: &str, deep: bool) -> BScn {
         selector_inserted_later: selector && rng.chance(0.15),
         selector_animator_prebuilt: selector && rng.chance(0.2),
         second: second.clone(),
+        crowd: None,
         extra_entity: if rng.chance(if property == "C19" { 0.35 } else { 0.15 }) {
             // often the same timeline as the main entity starts with, so that both end together
             let same = if selector {
@@ -273,7 +274,19 @@ pub fn generate(rng: &mut Rng, property: &str, deep: bool) -> BScn {
         // until the selector arrives the prebuilt animator (if any) plays its own timeline
         cur_tl = if cfg.selector_animator_prebuilt { cfg.initial_tl } else { None };
     }
-    for frame_no in 0..n_frames {
+    // A marathon run continues the finished schedule with a long tail (hundreds to a few thousand
+    // frames in one App's life), drawn from a stream of its own that is forked from one extra
+    // value at the end of the main stream: every other run, and the first part of this one, is
+    // what it was before marathon runs existed.
+    let mut frame_no = 0usize;
+    let mut total_frames = n_frames;
+    let mut tail_rng: Option<Rng> = None;
+    loop {
+    while frame_no < total_frames {
+        let rng: &mut Rng = match tail_rng.as_mut() {
+            Some(r) => r,
+            None => &mut *rng,
+        };
         let mut ops = Vec::new();
         let mut fault: &'static str = "none";
         if extra_spawn_at == Some(frame_no) {
@@ -492,9 +505,30 @@ pub fn generate(rng: &mut Rng, property: &str, deep: bool) -> BScn {
             delta_ns: delta,
             fault,
         });
+        frame_no += 1;
+    }
+    if tail_rng.is_some() {
+        break;
+    }
+    let fork = rng.next_u64();
+    // (decided from the same extra value, so that no other draw moves: one run in twelve has a
+    // crowd of 6..40 identically configured plain animated entities)
+    if (fork >> 20) % 12 == 0 {
+        cfg.crowd = Some((((fork >> 32) % cfg.tls.len() as u64) as usize, 6 + ((fork >> 40) % 35) as u8));
+    }
+    if fork % MARATHON_ONE_IN == 0 {
+        let mut r = Rng::new(fork ^ 0x6d61_7261_7468_6f6e);
+        total_frames = n_frames + r.range(250, if extreme { 600 } else if deep { 3000 } else { 1200 }) as usize;
+        tail_rng = Some(r);
+    } else {
+        break;
+    }
     }
     BScn { cfg, frames }
 }
+
+/// One run in this many is a marathon run (see `generate`).
+pub const MARATHON_ONE_IN: u64 = 127;
 
 pub fn shrink_candidates(s: &BScn) -> Vec<BScn> {
     let mut out = Vec::new();
@@ -565,6 +599,14 @@ pub fn shrink_candidates(s: &BScn) -> Vec<BScn> {
             }
         });
         push(&|c| c.extra_entity = None);
+        push(&|c| c.crowd = None);
+        push(&|c| {
+            if let Some((tl, n)) = c.crowd {
+                if n > 2 {
+                    c.crowd = Some((tl, 2));
+                }
+            }
+        });
         push(&|c| c.mirror = None);
         push(&|c| c.orphan = None);
         push(&|c| c.chain = None);
